@@ -2,7 +2,7 @@
 accept predicate of the property ('returns => supported'); counterexamples are replayed as real header bytes."""
 from __future__ import annotations
 
-from harness.common import Ctx, Scenario, files_desc, mi
+from harness.common import _where, Ctx, Scenario, files_desc, mi
 from symx import core, files, layouts, loader, stubs
 from symx.files import MonitorViolation, SymFile
 
@@ -17,22 +17,39 @@ def _gate_ctx(prop, name, cfg, tier, seed):
         ctx.res["obligations"] += 1
         ctx.res["discharged"] += 1
         # sample: the real constructor must refuse too
-        if ctx.scenario is not None and ctx.res["witnesses"] < ctx.max_witnesses and ctx.path_no % 3 == 0:
+        # a TypeError/AttributeError may be an artefact of a stand-in meeting code it does not model (a proxy handed to a C
+        # function): such a "refusal" is only believed when the real constructor refuses a concrete image of the path too
+        suspect = isinstance(ex, (TypeError, AttributeError))
+        if ctx.scenario is None and suspect:
+            ctx.res["inconclusive"].append(f"{type(ex).__name__} before the scenario was set: {ex}")
+            return
+        if ctx.scenario is not None and (suspect or (ctx.res["witnesses"] < ctx.max_witnesses and ctx.path_no % 3 == 0)):
             from symx import replay as _rp
 
             try:
                 m = ctx._solve_realisable([])
                 if m is None:
+                    if suspect:
+                        ctx.res["inconclusive"].append(f"{type(ex).__name__}: {str(ex)[:100]} @ {_where(ex)}: no replayable image "
+                                                       f"to confirm the refusal on the real code")
                     return
                 desc = ctx._describe(m, "witness: refusal")
-            except (core.Inconclusive, _rp.Unrealisable):
+            except (core.Inconclusive, _rp.Unrealisable) as ex2:
+                if suspect:
+                    ctx.res["inconclusive"].append(f"{type(ex).__name__}: {str(ex)[:100]} @ {_where(ex)}: no replayable image "
+                                                   f"to confirm the refusal on the real code ({ex2})")
                 return
             desc["expect"] = dict(raises="*")
             verdict, detail = ctx._run(desc, in_process=True)
             if verdict == "ok":
                 ctx.res["witnesses"] += 1
+            elif verdict == "violation" and suspect:
+                ctx.res["inconclusive"].append(f"stand-in artefact: the symbolic run raised {type(ex).__name__} ({str(ex)[:80]}) @ "
+                                               f"{_where(ex)} where the real constructor returns; path not decided")
             elif verdict == "violation":
                 ctx.res["witness_failures"].append(f"symbolic run refuses ({type(ex).__name__}) but the real constructor accepted: {detail}")
+            elif suspect:
+                ctx.res["inconclusive"].append(f"{type(ex).__name__} @ {_where(ex)}: refusal could not be replayed: {detail}")
 
     ctx.raises_ok = raises_ok
     return ctx
